@@ -23,7 +23,7 @@ CHECKS = [
         "Matryoshka._calc_target_power is zero or inside the system inclusion bounds and outside the exclusion zone: "
         "contracts on the three _bounds functions and a loop invariant for the priority sweep (which also visits the proposals in "
         "the strict order of Proposal.__lt__: history-freedom), the bucket algebra of calculate_target_power, and expiry "
-        "(drop_old_proposals removes exactly the proposals older than the maximum age), discharged by z3."
+        "(drop_old_proposals removes exactly the proposals older than the maximum age), discharged by z3. "
         "A bounded native explorer on the real objects runs alongside as a second, structure-independent line of detection (labelled bounded in the evidence; not part of the proof, never counted in obligations/discharged).",
         REALS + "; uniqueness of a strictly ordered arrangement of a finite set assumed (mathematical fact)",
         "contract-based deductive verification (AST->VC generator, z3)", "DESIGN.md 3 (C03)"),
@@ -46,7 +46,8 @@ CHECKS = [
         "Deductive proof in IEEE-754 binary64 (z3 FloatingPoint) that every formula step pops/pushes exactly as documented, "
         "never raises on any float operands, and yields NaN when either operand is NaN (min/max in both operand orders, "
         "division by zero -> non-finite); MetricFetcher.apply's None/NaN/inf -> 0.0 or NaN mapping. Found and repaired two "
-        "genuine defects (fix: commits in /repo).",
+        "genuine defects (fix: commits in /repo). "
+        "A bounded native explorer on the real objects runs alongside as a second, structure-independent line of detection (labelled bounded in the evidence; not part of the proof, never counted in obligations/discharged).",
         "z3's FloatingPoint theory = IEEE binary64 = python float; python max/min/ZeroDivisionError semantics as modelled (probed natively on every run); "
         "the evaluator's final NaN/inf -> None mapping and whole-expression composition are not yet under contract",
         "contract-based deductive verification in IEEE float mode (z3 FP theory)", "DESIGN.md 3 (C13)"),
@@ -66,7 +67,7 @@ CHECKS = [
         "Deductive proof (integer microsecond arithmetic) that the first window end is after creation, at most two periods later and on "
         "the align_to grid, and - by a loop invariant over all ticks of Resampler.resample - that _window_end advances by exactly one "
         "period per tick and every series is asked exactly once per tick for exactly that window end, independent of the clock, "
-        "of timer lateness and of failing sinks."
+        "of timer lateness and of failing sinks. "
         "A bounded native explorer on the real objects runs alongside as a second, structure-independent line of detection (labelled bounded in the evidence; not part of the proof, never counted in obligations/discharged).",
         "Timer(TriggerAllMissed) modelled as an arbitrary stream of ticks (one per elapsed period: library behaviour, assumed); series are "
         "scripted collaborators recording the timestamps requested; up to two series (structural bound), unbounded ticks; __init__'s "
@@ -86,7 +87,7 @@ CHECKS = [
         "Deductive proof for any set of batteries iterated in arbitrary order: loop invariants tie SoCCalculator / CapacityCalculator's "
         "running sums to ghost recurrences written from the documented formulas; result None iff no working battery has all "
         "metrics; SoC in [0, 100] and equal to used/total; lemmas (one by induction over the batteries): rescaled SoC bounded "
-        "and monotone, pool SoC non-decreasing in every battery's SoC, weights scale linearly with capacity."
+        "and monotone, pool SoC non-decreasing in every battery's SoC, weights scale linearly with capacity. "
         "A bounded native explorer on the real objects runs alongside as a second, structure-independent line of detection (labelled bounded in the evidence; not part of the proof, never counted in obligations/discharged).",
         "floats as reals (math.isclose by its definition); capacity >= 0, lower <= upper limit; scale invariance of the quotient only "
         "per battery; metric fetcher's NaN dropping and cache eviction not under contract",
@@ -95,7 +96,8 @@ CHECKS = [
         "Deductive proof over symbolic real-valued bounds: BatteryManager._get_bounds has the documented closed forms, its inclusion "
         "bounds equal the advertised ones and its exclusion zone lies inside the advertised one, so _check_request accepts every "
         "non-zero power the advertised bounds admit (both adjust_power settings); PowerBoundsCalculator.calculate computes those "
-        "advertised aggregates; an admitted power covers the sum of the groups' minimum powers.",
+        "advertised aggregates; an admitted power covers the sum of the groups' minimum powers. "
+        "A bounded native explorer on the real objects runs alongside as a second, structure-independent line of detection (labelled bounded in the evidence; not part of the proof, never counted in obligations/discharged).",
         "structural bound (stated in evidence): one or two battery groups, up to two inverters per group, up to three batteries per "
         "group, one fixed topology for PowerBoundsCalculator; all numeric data unbounded; floats as reals",
         "contract-based deductive verification (z3, LRA), structural bound on topology", "DESIGN.md 3 (C17)"),
@@ -104,7 +106,7 @@ CHECKS = [
         "registered task at all (a finished task whose done-callback is still pending counts as busy), a completion starts the parked "
         "one (preconditions of _process_request, obligations at both call sites); arrivals for a busy group are parked and the "
         "parked request is always the latest (loop invariant over the request stream with a ghost map); at completion - normal or "
-        "exceptional - the parked request starts at once; other groups are never touched."
+        "exceptional - the parked request starts at once; other groups are never touched. "
         "A bounded native explorer on the real objects runs alongside as a second, structure-independent line of detection (labelled bounded in the evidence; not part of the proof, never counted in obligations/discharged).",
         "asyncio.create_task / done-callback behaviour assumed (callback exactly once after completion); two disjoint groups; "
         "scripted component manager; liveness reduced to safety + 'every distribution task finishes'; requests compared by content",
@@ -121,7 +123,7 @@ CHECKS = [
         "Deductive proof of the restart policy (loop invariant over any sequence of outcomes of the run logic: re-invoked after an "
         "Exception while the limit allows, never after return / cancellation / other BaseException), of start()'s idempotence, "
         "cancel() and stop() - stop() under interference at its awaits (a task added meanwhile). One genuine defect is recorded as "
-        "a known finding (stop() returns while a task added during the wait is still running) with a native witness."
+        "a known finding (stop() returns while a task added during the wait is still running) with a native witness. "
         "A bounded native explorer on the real objects runs alongside as a second, structure-independent line of detection (labelled bounded in the evidence; not part of the proof, never counted in obligations/discharged).",
         "asyncio task model assumed (incl. wait(FIRST_COMPLETED)); run logic is a scripted collaborator; interference bounded to one added "
         "task; run(*actors) for two actors; the restart delay is the actor's own RESTART_DELAY; wait() alone, cancel_and_await not under contract",
@@ -131,7 +133,8 @@ CHECKS = [
         "Deductive proof of MetricFetcher's primary/fallback switching against scripted streams on a common grid: forward-only "
         "synchronisation of the fallback stream up to the primary sample's timestamp (loop invariant), invalid primary sample replaced "
         "by the fallback sample of the same timestamp, valid primary used, fallback started lazily and once, failing primary falls "
-        "through to the fallback, and no other exception escapes. Found and repaired a genuine defect (fix: commit in /repo).",
+        "through to the fallback, and no other exception escapes. Found and repaired a genuine defect (fix: commit in /repo). "
+        "A bounded native explorer on the real objects runs alongside as a second, structure-independent line of detection (labelled bounded in the evidence; not part of the proof, never counted in obligations/discharged).",
         "channel behaviour (receive returns the next sample or raises) is the scripted stream model; timestamps as integer grid ticks; "
         "IEEE doubles for sample values; FallbackFormulaMetricFetcher's lazy engine creation not under contract",
         "contract-based deductive verification with scripted stream collaborators and exception tables (z3)", "DESIGN.md 3 (C19)"),
@@ -140,7 +143,7 @@ CHECKS = [
         "timestamps: the steps read exactly the samples stamped with the emitted timestamp; the first run lands on the latest first "
         "timestamp without reading beyond it; afterwards timestamps advance by one step, none skipped or repeated (class invariant "
         "'aligned'). FormulaEngine3Phase._run never mixes timestamps when its phase streams start aligned; the unaligned start is a "
-        "recorded known finding with a native witness."
+        "recorded known finding with a native witness. "
         "A bounded native explorer on the real objects runs alongside as a second, structure-independent line of detection (labelled bounded in the evidence; not part of the proof, never counted in obligations/discharged).",
         "stream/channel model assumed (per-stream in-order delivery of first + k*step; interleavings irrelevant under it); two input "
         "streams (structural bound); FormulaEngine._run not under contract",
